@@ -130,13 +130,24 @@ def replay_case(b):
             if op == "plugin":
                 e = b["evs"][step["ev"] - 1]
                 ev = EV(0, 10, 1.0, "E-1", "sess-%d-%d" % (step["ev"], n), Battery(e["cap"] / KWH, e["init"] / KWH, e["pw"] / 1000.0))
-                ev._verif_idx = step["ev"]
                 try:
                     evse.plugin(ev)
                 except StationOccupiedError:
                     res = "occupied"
             elif op == "unplug":
                 evse.unplug()
+            elif op == "round_trip":
+                evse = type(evse).from_json(evse.to_json())
+                # the loaded station advertises what the original did
+                if kind["cls"] != "finite":
+                    spec_adv = [kind["min"] / U if kind["cls"] == "cont" else kind["end"] / U, kind["max"] / U]
+                else:
+                    spec_adv = allow
+                got = (bool(evse.is_continuous), [float(x) for x in evse.allowable_pilot_signals],
+                       float(evse.max_rate), float(evse.min_rate))
+                want = (bool(b["cont"]), [float(x) for x in spec_adv], b["max"] / U, b["min"] / U)
+                if got != want:
+                    return {"field": "advertised_after_round_trip", "step": n, "op": step, "spec": want, "impl": got}
             else:
                 try:
                     evse.set_pilot(pilot_value(step, n + form), V, T)
@@ -144,7 +155,7 @@ def replay_case(b):
                     res = "invalid"
             if res != step["res"]:
                 return {"field": "outcome", "step": n, "op": step, "spec": step["res"], "impl": res}
-            occ = 0 if evse.ev is None else evse.ev._verif_idx
+            occ = 0 if evse.ev is None else int(evse.ev.session_id.split("-")[1])
             if occ != step["occ"]:
                 return {"field": "occupant", "step": n, "op": step, "spec": step["occ"], "impl": occ}
             if not close(evse.current_pilot, step["pilot"] / U):
@@ -173,7 +184,7 @@ def check_C13(tier, seed):
                         "accepted negative pilots (within tolerance of 0) are only applied to a vacant station"]
     mc = run_tlc("MC_EVSE", "EVSE_mc", coverage=True, overrides={} if tier == "thorough" else {"MaxOps": "= 2"})
     rep.add_tlc(mc, "exhaustive model checking: AdvertisedAccepted, PilotIsValid, RejectChangesNothing, OccupiedRefused",
-                "EVSE_mc", require_actions=["Plugin", "Unplug", "DoSetPilot", "SetSpecial", "Finish"])
+                "EVSE_mc", require_actions=["Plugin", "Unplug", "DoSetPilot", "SetSpecial", "RoundTrip", "Finish"])
     require_ok(mc, "EVSE model checking")
     cases = []
     gen = run_tlc("MC_EVSE", "EVSE_gen", workers=1, overrides={"MaxOps": "= 2"} if tier == "quick" else {"MaxOps": "= 3"},
@@ -201,4 +212,6 @@ def check_C13(tier, seed):
     rep.notes.append("all %d call sequences of the exhaustive configuration replayed, plus %d sampled longer ones" % (n_ex, len(seen) - n_ex))
     rep.sample(cases[7])
     rep.sample(cases[-1])
+    from .props_network import check_network    # refused plug-ins / invalid pilots at network level (Network.tla)
+    check_network(rep, tier, seed, "C13")
     return rep.finish()
